@@ -11,7 +11,7 @@ log-densities).  Doubles travel as their 64-bit patterns (decimal `UInt64`), so 
   C <kind> <l> <u> v…          -> check(v)…  (0/1)
   H <kind> <l> <u> <raw0> op…  -> per op  raised:read:raw   ops: S v | R r | D δ | A r | K kind l u
   X l1 u1 l2 u2                -> intersect lower upper
-  P <prior> params… x          -> log density
+  P <prior> params… x          -> log density   (`sboxvec a b σ x1 … xd`: scalar smoothed box on a d-element value)
   N <#modules> {path isList}* <#leaves> {path p|r pid}* <#params> {kind l u raw0}* <#kwargs> {path value}*
                                -> `G raised {read:raw}* | S raised {read:raw}*`: one `Module.initialize(**kwargs)` on a
                                   module tree, run by the program REGENERATED from module.py (`G`) and by the
@@ -119,6 +119,7 @@ def prior (name : String) (a : List Float) : Option Float :=
   | "halfcauchy", [s, x] => some (Priors.halfCauchyLogProb s x)
   | "gamma", [a, b, lg, x] => some (Priors.gammaLogProb a b lg x)
   | "sbox", [a, b, σ, x] => some (Gen.Priors.smoothedBoxLogProb a b σ x)
+  | "sboxvec", a :: b :: σ :: xs => some (Gen.Priors.smoothedBoxLogProbVec a b σ xs)
   | "horseshoe", [s, x] => some (Gen.Priors.horseshoeLogProb s x)
   | _, _ => none
 
